@@ -335,6 +335,63 @@ func (a *A) ruleSlotStamp(W *types.Named, fn *ssa.Function) {
 				}
 			}
 			if stamped == nil {
+				// stamped afterwards: once the rows are collected, a full scan of the batch sets every row's Slot
+				// (`for i := range batch { batch[i].Slot = slot }`), before any return hands the batch out
+				for _, l2 := range rangeLoops(fn) {
+					if l2 == l || l2.X == nil {
+						continue
+					}
+					isBatch := false
+					for _, lf := range phiLeaves(l2.X) {
+						if lf == ssa.Value(c) {
+							isBatch = true
+						}
+					}
+					if !isBatch {
+						continue
+					}
+					full := true
+					for b := range l2.Blocks {
+						for _, sc := range b.Succs {
+							if !l2.Blocks[sc] && sc != l2.Header {
+								full = false // left early
+							}
+						}
+					}
+					var val *Term
+					for _, in := range l2.Body.Instrs {
+						st, ok := in.(*ssa.Store)
+						if !ok {
+							continue
+						}
+						fa, ok := st.Addr.(*ssa.FieldAddr)
+						if !ok || fieldVarOf(fa).Name() != "Slot" {
+							continue
+						}
+						if ia, ok := fa.X.(*ssa.IndexAddr); ok && ia.X == l2.X {
+							val = TermOf(st.Val, nil)
+						}
+					}
+					before := true
+					for _, b := range fn.Blocks {
+						ret, ok := b.Instrs[len(b.Instrs)-1].(*ssa.Return)
+						if !ok {
+							continue
+						}
+						for _, r := range ret.Results {
+							for _, lf := range phiLeaves(r) {
+								if lf == ssa.Value(c) && !l2.Header.Dominates(b) {
+									before = false
+								}
+							}
+						}
+					}
+					if full && val != nil && before && si.Returned && len(si.PassedTo) == 0 {
+						stamped = val
+					}
+				}
+			}
+			if stamped == nil {
 				a.Bad(construct, c.Pos(), "the taken row's Slot is not set before it is appended: window_start/window_end would not be the fired interval")
 				continue
 			}
